@@ -386,7 +386,13 @@ func (f *Func) At(n ast.Node) string {
 	}
 	return f.Prog.Rel(n.Pos())
 }
-func (f *Func) Line(n ast.Node) int { return f.Prog.Fset.Position(n.Pos()).Line }
+func (f *Func) Line(n ast.Node) int {
+	ps := f.Prog.Fset.Position(n.Pos())
+	if m := f.Prog.lineMap[f.Prog.Fset.File(n.Pos())]; m != nil && ps.Line < len(m) && m[ps.Line] > 0 {
+		return m[ps.Line]
+	}
+	return ps.Line
+}
 
 // Root returns the enclosing declared function.
 func (f *Func) Root() *Func {
